@@ -61,6 +61,17 @@ func (p *printer) printFile(file *ast.File) error {
 		case *ast.GenDecl:
 			p.setComment(d.Doc)
 
+			// an empty group (`全局:` / `常量:` directly followed by 完毕) has no spec to look at
+			if len(d.Specs) == 0 {
+				switch d.Tok {
+				case token.CONST, token.Zh_常量:
+					p.valueSpecGroup(d, token.Zh_常量)
+				default:
+					p.valueSpecGroup(d, token.Zh_全局)
+				}
+				break
+			}
+
 			switch s := d.Specs[0].(type) {
 			case *ast.ImportSpec:
 				assert(len(d.Specs) == 1)
@@ -90,34 +101,7 @@ func (p *printer) printFile(file *ast.File) error {
 					default:
 						panic("unreachale")
 					}
-					p.print(d.Pos(), tok, token.COLON)
-					if n := len(d.Specs); n > 0 {
-						p.print(indent, formfeed)
-						if n > 1 {
-							// two or more grouped const/var declarations:
-							// determine if the type column must be kept
-							keepType := keepTypeColumn(d.Specs)
-							var line int
-							for i, s := range d.Specs {
-								if i > 0 {
-									p.linebreak(p.lineFor(s.Pos()), 1, ignore, p.linesFrom(line) > 0)
-								}
-								p.recordLine(&line)
-								p.valueSpec(s.(*ast.ValueSpec), keepType[i])
-							}
-						} else {
-							var line int
-							for i, s := range d.Specs {
-								if i > 0 {
-									p.linebreak(p.lineFor(s.Pos()), 1, ignore, p.linesFrom(line) > 0)
-								}
-								p.recordLine(&line)
-								p.spec_ValueSpec(s.(*ast.ValueSpec), n, false)
-							}
-						}
-						p.print(unindent, formfeed)
-					}
-					p.print(d.Rparen, token.Zh_完毕)
+					p.valueSpecGroup(d, tok)
 				} else {
 					switch d.Tok {
 					case token.CONST, token.Zh_常量:
@@ -260,4 +244,39 @@ func keepTypeColumn(specs []ast.Spec) []bool {
 	}
 
 	return m
+}
+
+// valueSpecGroup prints a grouped constant / variable declaration:
+// the keyword and a colon, one spec per line, 完毕.
+func (p *printer) valueSpecGroup(d *ast.GenDecl, tok token.Token) {
+	p.print(d.Pos(), tok, token.COLON)
+	if n := len(d.Specs); n > 0 {
+		p.print(indent, formfeed)
+		if n > 1 {
+			// two or more grouped const/var declarations:
+			// determine if the type column must be kept
+			keepType := keepTypeColumn(d.Specs)
+			var line int
+			for i, s := range d.Specs {
+				if i > 0 {
+					p.linebreak(p.lineFor(s.Pos()), 1, ignore, p.linesFrom(line) > 0)
+				}
+				p.recordLine(&line)
+				p.valueSpec(s.(*ast.ValueSpec), keepType[i])
+			}
+		} else {
+			var line int
+			for i, s := range d.Specs {
+				if i > 0 {
+					p.linebreak(p.lineFor(s.Pos()), 1, ignore, p.linesFrom(line) > 0)
+				}
+				p.recordLine(&line)
+				p.spec_ValueSpec(s.(*ast.ValueSpec), n, false)
+			}
+		}
+		p.print(unindent, formfeed)
+	} else {
+		p.print(formfeed)
+	}
+	p.print(d.Rparen, token.Zh_完毕)
 }
